@@ -14,10 +14,13 @@ CLASS_NAMES = ['SO2', 'SE2', 'SO3', 'SE3', 'Quaternion', 'UnitQuaternion', 'Twis
                'SpatialMomentum', 'SpatialInertia', 'DualQuaternion', 'UnitDualQuaternion']
 
 # not judged: plotting / animation (matplotlib), and helpers that take callables
-EXCLUDE_BASE = {'trplot', 'trplot2', 'tranimate', 'tranimate2', 'Animate', 'Animate2',
-                'plotvol2', 'plotvol3'}
-EXCLUDE_MEMBERS = {'plot', 'animate', 'arghandler', 'binop', 'unop', 'sort', 'remove',
+# animation entry points block on a display loop (the repository's own two animation tests hang in
+# this sandbox); the static plotting functions run under the Agg backend and are exercised with
+# block=False, every figure being closed after the call
+EXCLUDE_BASE = {'tranimate', 'tranimate2', 'Animate', 'Animate2'}
+EXCLUDE_MEMBERS = {'animate', 'arghandler', 'binop', 'unop', 'sort', 'remove',
                    'about', 'isvalid_', 'mro', 'register'}
+KEYWORD_ONLY = {'file', 'block'}
 # documented list-mutation methods: their receiver is exempt from the frame condition
 MUTATORS = {'append', 'extend', 'insert', 'pop', 'clear', 'reverse', '__setitem__', '__delitem__'}
 RANDOM = {'Rand', 'rand'}
@@ -58,6 +61,10 @@ BASE_TEMPLATES = {
     'dotb': 'q=q|v4, w=v3',
     'angle': 'q1=q, q2=q',
     'qprint': 'q=q|v4, file=stream|stream|none, ?fmt=fmt',
+    'trplot': 'T=T3|R3, block=false, ?dims=dims, ?color=color, ?frame=str, ?length=sc, ?arrow=bool',
+    'trplot2': 'T=T2|R2, block=false, ?dims=dims, ?color=color, ?frame=str, ?length=sc, ?arrow=bool',
+    'plotvol2': 'dim=dims|sc',
+    'plotvol3': 'dim=dims|sc',
     'rot2': 'theta=ang, ?unit=unit',
     'trot2': 'theta=ang, ?unit=unit, ?t=v2',
     'transl2': 'x=sc, y=sc / x=v2|T2',
@@ -209,6 +216,8 @@ MEMBER_TEMPLATES = {
     'Twist2.isvalid': 'v=v3|se2|m33, ?check=bool', 'Twist3.isvalid': 'v=v6|se3|T3, ?check=bool',
     'Plucker.isvalid': 'x=v6|v3, ?check=bool',
     'isvalid': 'x=v6|m66, check=bool',
+    'plot': 'block=false, ?dims=dims, ?color=color, ?frame=str',
+    'Plucker.plot': '',
     'printline': 'file=stream|stream|none, ?unit=unit, ?fmt=fmt, ?label=str, ?orient=orient',
     'count': 'item=SAME1', 'index': 'item=SAME1', '__contains__': 'item=SAME1',
     '__getitem__': 'i=idx|slice',
